@@ -74,7 +74,7 @@ Proof.
     - intros a ta Ha. destruct (Nat.eq_dec a i) as [->|Hai].
       + rewrite Hi in Ha. injection Ha as <-. exact Hck'.
       + apply Hp with a. apply Ho; auto. }
-  destruct e as [l m|l m|x s|x s]; cbn [check_path] in Hck.
+  destruct e as [l m|l m|x s|x s|s]; cbn [check_path] in Hck.
   - (* Acq *)
     destruct (hget h l) eqn:Eh; [discriminate|]. apply andb_true_iff in Hck as [_ Hck].
     destruct (others_allow ts i l m) eqn:Eo; [|discriminate]. intros H; injection H as <-.
@@ -103,6 +103,10 @@ Proof.
     intros H; injection H as <-. apply Hframe; [exact Hck|]. intros l' j tj Hne Hj. split.
     + intros Hw. eapply (Hex i j (h, Wr x s :: p) tj l'); eauto.
     + intros Hw. eapply (Hex j i tj (h, Wr x s :: p) l'); eauto.
+  - destruct h as [[|] [|]]; try discriminate.
+    intros H; injection H as <-. apply Hframe; [exact Hck|]. intros l' j tj Hne Hj. split.
+    + intros Hw. eapply (Hex i j (None, None, User s :: p) tj l'); eauto.
+    + intros Hw. eapply (Hex j i tj (None, None, User s :: p) l'); eauto.
 Qed.
 
 Lemma crun_inv sched ts : excl ts -> paths_ok ts -> excl (crun ts sched) /\ paths_ok (crun ts sched).
@@ -134,7 +138,7 @@ Proof.
   destruct ti as [hi [|a' pi]]; [discriminate|]. destruct tj as [hj [|b' pj]]; [discriminate|].
   cbn in Ha, Hb. injection Ha as ->. injection Hb as ->. cbn [fst snd] in *.
   assert (Hloc : forall x y, loc_eqb x y = true -> x = y) by (intros [] []; cbn; congruence).
-  destruct a as [| |x s|x s], b as [| |y s'|y s']; try reflexivity; cbn [conflicting];
+  destruct a as [| |x s|x s|s], b as [| |y s'|y s'|s']; try reflexivity; cbn [conflicting];
     destruct (loc_eqb x y) eqn:Exy; try reflexivity; apply Hloc in Exy; subst y; cbn [check_path] in Ci, Cj; exfalso.
   - (* Rd / Wr *)
     destruct (hget hj (guard x)) as [[|]|] eqn:Ej; try discriminate.
@@ -233,19 +237,30 @@ Proof.
       destruct Hex as (j & tj & Hj & Hne & Hh).
       pose proof (unfinished_holder ts j tj WS Hp Hj Hh) as Hu.
       destruct tj as [hj [|e pj]]; [now contradiction Hu|].
-      destruct e as [l' m'|l' m'|x s|x s].
+      destruct e as [l' m'|l' m'|x s|x s|s].
       + (* the holder of WS waits itself: it can only be for RT *)
         destruct (holder_cannot_wait ts j _ WS l' m' Hp Hj Hh eq_refl) as [_ ->]. eapply HRT; exact Hj.
       + exists j. eapply non_acq_steps; [exact Hj|]. intros l1 m1 F. discriminate F.
       + exists j. eapply non_acq_steps; [exact Hj|]. intros l1 m1 F. discriminate F.
+      + exists j. eapply non_acq_steps; [exact Hj|]. intros l1 m1 F. discriminate F.
       + exists j. eapply non_acq_steps; [exact Hj|]. intros l1 m1 F. discriminate F. }
   destruct t0 as [h0 [|e p0]]; [now contradiction Hu0|].
-  destruct e as [[|] m|l m|x s|x s].
+  destruct e as [[|] m|l m|x s|x s|s].
   - eapply HWS; exact Hi0.
   - eapply HRT; exact Hi0.
   - exists i0. eapply non_acq_steps; [exact Hi0|]. intros l1 m1 F. discriminate F.
   - exists i0. eapply non_acq_steps; [exact Hi0|]. intros l1 m1 F. discriminate F.
   - exists i0. eapply non_acq_steps; [exact Hi0|]. intros l1 m1 F. discriminate F.
+  - exists i0. eapply non_acq_steps; [exact Hi0|]. intros l1 m1 F. discriminate F.
+Qed.
+
+(* no registration lock is held while user code runs: a thread about to call user code holds nothing *)
+Theorem user_code_unlocked (paths : list (list ev)) (sched : list nat) i h s p :
+  forallb (check_path hempty) paths = true ->
+  nth_error (crun (init_threads paths) sched) i = Some (h, User s :: p) -> h = hempty.
+Proof.
+  intros H Hi. destruct (init_inv paths H) as [He Hp]. destruct (crun_inv sched _ He Hp) as [_ Hp'].
+  pose proof (Hp' i _ Hi) as C. cbn in C. destruct h as [[|] [|]]; try discriminate. reflexivity.
 Qed.
 
 Theorem lockset_no_deadlock (paths : list (list ev)) (sched : list nat) :
